@@ -32,7 +32,7 @@ static int vc_run_join(pthread_t t, void **r) { (void)t; (void)r; return 0; }
 #define pthread_create vc_run_create
 #define pthread_join vc_run_join
 #define pthread_exit(x) ((void)0)
-#include "/repo/src/metricspace.c"
+#include "metricspace.c"
 
 static matrix *in_matrix(size_t r, size_t c)
 {
